@@ -8,6 +8,7 @@ package main
 // encoding/json is replaced by the same model codec (round-trip contract).
 
 import (
+	"strings"
 	"fmt"
 	"go/types"
 )
@@ -316,7 +317,16 @@ func init() {
 			var cell Value = env
 			return Tuple{&cell, Iface{}}
 		})
+		// the registry of record types: the repository's own types count as
+		// registered only if RegisterType was really called for them on this path
+		// (libp2p's own types are registered by libp2p's initialisers, not run here)
 		p.reg(lp+"/record.RegisterType", func(ex *Exec, fr *Frame, args []Value) Value {
+			if itf, ok := args[0].(Iface); ok && itf.t != nil {
+				if ex.recordReg == nil {
+					ex.recordReg = map[string]bool{}
+				}
+				ex.recordReg[itf.t.String()] = true
+			}
 			return nil
 		})
 		p.reg(lp+"/record.blankRecordForPayloadType", func(ex *Exec, fr *Frame, args []Value) Value {
@@ -339,6 +349,16 @@ func init() {
 					t := ex.p.namedType(cand.pkg, cand.name)
 					if t == nil {
 						ex.unsupported("record type %s.%s not loaded", cand.pkg, cand.name)
+					}
+					if strings.HasPrefix(cand.pkg, "github.com/ipni/go-libipni") {
+						// the package's initialisers have run by now in a real process
+						if sp := ex.p.prog.ImportedPackage(cand.pkg); sp != nil && !ex.inited[sp] {
+							ex.allocGlobals(sp)
+							ex.initPkg(sp)
+						}
+						if !ex.recordReg[types.NewPointer(t).String()] {
+							return Tuple{Iface{}, ex.newErrorString("payload type is not registered")}
+						}
 					}
 					v := zero(t)
 					return Tuple{Iface{t: types.NewPointer(t), v: &v}, Iface{}}
